@@ -13,7 +13,7 @@ def setup(c):
                      "property ops (audit, idem <cmd>, scaneq, late, gcprop) evaluate the C12 oracle on each side's own store. "
                      "Cases: all sequences of length 3 (quick) / 4 (thorough) over a 15-command reduced alphabet (2 transactions, 2 keys), "
                      "then seeded random sequences over the full alphabet (<= 4 keys, 2-4 transactions, pairwise distinct start/commit/for-update ts in random order); "
-                     "a case = one `# case`; distinct = distinct op lines; directed family: commit order inverting start order on one key (an older-start pessimistic transaction commits above a newer-start one; a data record, a rollback marker or a lock-only record gets buried), followed by late / repeated recovery requests for both transactions; 70 % of the random cases end with a recovery epilogue (late commit / rollback / status / cleanup / resolve for every transaction) before the never-both audit")
+                     "a case = one `# case`; distinct = distinct op lines; directed family carry-over: a pessimistic primary lock accumulates ttl (heart-beats) and min-commit-ts (readers' status checks / the lock request), `ownpessprewrite` then prewrites over it asking for half the ttl and no min-commit-ts and the new lock must keep the larger of each (FAIL prewrite over own pessimistic lock lost its ttl or min-commit-ts), then a commit; directed family: commit order inverting start order on one key (an older-start pessimistic transaction commits above a newer-start one; a data record, a rollback marker or a lock-only record gets buried), followed by late / repeated recovery requests for both transactions; 70 % of the random cases end with a recovery epilogue (late commit / rollback / status / cleanup / resolve for every transaction) before the never-both audit")
     c.assumptions = ["leveldb itself is not modelled (ordered map with per-key version list)",
                      "deadlock key hash (farm fingerprint) is dropped from the comparison",
                      "preconditions of the property (distinctTS, noLockAfterFinish for pessimistic lock requests) are enforced by the generator"]
